@@ -296,7 +296,7 @@ def bulk_delegation(prog, rep, cname, c, adder, rule="bulk-delegation"):
             others = {m for m, _, w, _, _ in BULK[cname] if w == what and m != mname}
             direct += [x for e in pe.effects for x in ast.walk(e) if isinstance(x, ast.Call) and isinstance(x.func, ast.Attribute) and x.func.attr in others
                        and isinstance(x.func.value, ast.Name) and x.func.value.id == sn
-                       and any(isinstance(a, ast.Name) and a.id == items_p for a in list(x.args) + [k.value for k in x.keywords])]
+                       and any(isinstance(y, ast.Name) and y.id == items_p for a in list(x.args) + [k.value for k in x.keywords] for y in ast.walk(a))]
             if not loop_nodes:
                 if direct:
                     continue  # handed over in some other way (e.g. the whole list to another bulk method)
@@ -403,7 +403,8 @@ def adder_channel_rules(rep, mod, fq, f, amap, sn):
     for pe in paths:
         if pe.kind == "raise":
             continue
-        facts_ = [x for t, pol in pe.guards for x in flat(t, pol)]
+        from ..facts import flat_facts as _ff
+        facts_ = _ff(pe.guards)      # with unit resolution: `not (A and B)` and A give `not B`
         for e in pe.effects:
             for call in ast.walk(e):
                 if not (isinstance(call, ast.Call) and isinstance(call.func, ast.Attribute) and call.func.attr == "append" and norm(call.func.value) == M and call.args):
